@@ -158,6 +158,7 @@ class FnRef(V):
 class Closure(V):
     name: str
     captures: Tuple  # ((field_name, value), ...)
+    generics: Tuple = ()  # generic context of the defining function ((param, type), ...)
 
     def __repr__(self):
         return f"closure({self.name})"
